@@ -13,7 +13,7 @@ from fractions import Fraction
 
 from ..sx import terms as T
 from ..sx.sym import (Q, Sym, SymBool, Unsupported, concrete, ctx, fresh, lift, s_ite, simp, Context)
-from .np_shim import SymArray, asarray, _is_scalar, UNINIT, Uninit, UninitRead
+from .np_shim import SymArray, asarray, _is_scalar, UNINIT, Uninit, UninitRead, Inf
 
 _counter = [0]
 
@@ -38,6 +38,11 @@ def _col(x):
     return x
 
 
+class NonMonotoneAbscissae(Exception):
+    """interp1d was given abscissae that are neither strictly increasing nor strictly decreasing on this
+    path (the real routine would silently sort them).  Harnesses treat the path as an outcome."""
+
+
 class Interp1d:
     """scipy.interpolate.interp1d, kind='linear'."""
 
@@ -52,8 +57,10 @@ class Interp1d:
             raise ValueError("x and y arrays must have at least 2 entries")
         xs, ys = list(x.d), list(y.d)
         for v in xs + ys:
-            if isinstance(v, Uninit):
+            if isinstance(v, Uninit) and not isinstance(v, Inf):
                 raise UninitRead()
+        if any(isinstance(v, Inf) for v in xs):
+            raise UninitRead()
         # ordering of the abscissae: decided on the path (splits if not implied)
         inc = dec = True
         for k in range(len(xs) - 1):
@@ -66,7 +73,7 @@ class Interp1d:
             dec = False
             break
         if not inc and not dec:
-            raise Unsupported("interp1d abscissae neither strictly increasing nor strictly decreasing on this path")
+            raise NonMonotoneAbscissae("interp1d abscissae neither strictly increasing nor strictly decreasing")
         if dec and not inc:
             xs.reverse()
             ys.reverse()
@@ -91,6 +98,19 @@ class Interp1d:
 
     def _seg(self, k, q):
         x0, x1, y0, y1 = self.x[k - 1], self.x[k], self.y[k - 1], self.y[k]
+        if isinstance(y0, Inf) or isinstance(y1, Inf):
+            # an infinite ordinate: the result is inf/nan wherever this segment is selected
+            c = Context.current
+            n = len(self.x)
+            inside = []
+            if k > 1:
+                inside.append((lift(q) > lift(self.x[k - 1])).node)
+            if k < n - 1:
+                inside.append((lift(q) <= lift(self.x[k])).node)
+            sel = T.b_and(*inside) if inside else T.b_const(True)
+            if c is not None:
+                c.require(T.b_not(sel), f"interp1d query outside the segment [{x0!r}, {x1!r}] whose ordinate is infinite")
+            return Q(0)
         slope = (y1 - y0) / (x1 - x0)
         return slope * (q - x0) + y0
 
@@ -104,6 +124,11 @@ class Interp1d:
     def _one(self, q):
         if isinstance(q, Uninit):
             raise UninitRead()
+        if not self.extrapolate or True:
+            qp = lift(q).p
+            for k, xv in enumerate(self.x):
+                if lift(xv).p == qp and not isinstance(self.y[k], Inf):
+                    return self.y[k]      # query is syntactically a node
         r = self._eval_inside(q)
         if self.extrapolate:
             return r
